@@ -9,6 +9,8 @@ for d in sorted(glob.glob("seeded/C*-m*")):
     name = os.path.basename(d); pid = name.split("-")[0]
     if want and pid not in want and name not in want:
         continue
+    if str(json.load(open(d + "/meta.json")).get("status", "")).startswith("neutralised"):
+        matrix[name] = dict(status="neutralised-by-a-fix (not a violation any more)"); continue
     assert subprocess.run(["git", "-C", "/repo", "status", "--porcelain"], capture_output=True, text=True).stdout.strip() == "", "dirty /repo"
     r = subprocess.run(["git", "-C", "/repo", "apply", os.path.abspath(d + "/patch.diff")], capture_output=True, text=True)
     if r.returncode:
